@@ -526,35 +526,27 @@ def hasNoneOpt : FieldDecl → Bool
 
 /-- a default given with `=` is validated on every path (`Field.__init__` when truthy,
     `_try_default_value`, `_apply_default_and_update_required…` when falsy) -/
-def finishField (O : Oracles) (d : FieldDecl) (opt : Bool) (dflt : DefaultSp) (once : Bool := false) : R FieldRes :=
+def finishField (O : Oracles) (d : FieldDecl) (opt : Bool) (dflt : DefaultSp) : R FieldRes :=
   match dflt with
   | .none => .ok (.field d (!opt) none)
   | .kw v _ => .ok (.field d false (some v))
   | .kwF _ _ => .ok (.field d false (some factoryTag))
-  /- a factory given with `=`: its product is validated; the factory itself is kept as `_default`, EXCEPT
-     when the annotation converted to a Field *class* (`once`: `_type_with_default_value_if_exists` then calls
-     `the_type(default=f())`, storing the product; a falsy product is replaced by the factory again in
-     `_apply_default_and_update_required…`) -/
-  | .eqF p _ =>
-    bindE (tryDefault O d p) fun _ => .ok (.field d false (some (if once && truthy p then p else factoryTag)))
+  /- a factory given with `=`: its product is validated; the factory itself is kept as `_default` on every
+     path (also when the annotation converts to a Field class: `the_type(default=default)`, typedpy d1c0173) -/
+  | .eqF p _ => bindE (tryDefault O d p) fun _ => .ok (.field d false (some factoryTag))
   | .eq v _ =>
     if !eqDefault v then .error (.other "unmodelled-default")
     else bindE (tryDefault O d v) fun _ => .ok (eqResult d opt v)
 
-def afterGtli (O : Oracles) (fs : FieldSp) (r : Option FieldDecl) (once : Bool := false) : R FieldRes :=
+def afterGtli (O : Oracles) (fs : FieldSp) (r : Option FieldDecl) : R FieldRes :=
   match r with
   | none => .ok .dropped
-  | some d => finishField O d (hasNoneOpt d || fs.inOptional) fs.dflt once
-
-/-- `get_typing_lib_info` returned a Field class (not an instance): builtin classes and `typing.Any` -/
-def gtliGivesClass (tm : TypeMap) : Obj → Bool
-  | .ty a => !tm.generic a
-  | _ => false
+  | some d => finishField O d (hasNoneOpt d || fs.inOptional) fs.dflt
 
 /-- `add_annotations_to_class_dict` for one evaluated annotation -/
 def annField (O : Oracles) (tm : TypeMap) (fs : FieldSp) (o : Obj) : R FieldRes :=
   if isFieldObj o then bindE (getItem tm o) fun d => finishField O d fs.inOptional fs.dflt
-  else bindE (gtli tm o) fun r => afterGtli O fs r (gtliGivesClass tm o)
+  else bindE (gtli tm o) fun r => afterGtli O fs r
 
 /-- a field object found in the class body (its `default=`, if any, was handled by `applyKw`) -/
 def finishFieldNoCheck (d : FieldDecl) (opt : Bool) (dflt : DefaultSp) : R FieldRes :=
